@@ -17,6 +17,7 @@ pub fn def() -> CheckDef {
         assumptions: &["monotone simulated clock", "clients are in-process callers", "no storage errors are injected"],
         probes: &["probe.branch_pending", "probe.else_after_sibling_decided", "probe.needs_branch"],
         quick_cases: 4000,
+        no_shrink: &[],
     }
 }
 
